@@ -21,8 +21,11 @@ mon = sys.monitoring
 TOOL = 4
 
 
-class SimInterrupt(BaseException):
-    """Injected asynchronous interruption (KeyboardInterrupt / kill)."""
+class SimInterrupt(KeyboardInterrupt):
+    """Injected asynchronous interruption (Ctrl-C / kill).
+
+    It *is* a KeyboardInterrupt, so `except KeyboardInterrupt:` clean-up code in the repository runs
+    exactly as it does when a user presses Ctrl-C.  For a kill nothing may run at all: see `dead`."""
 
 
 class Divergent(BaseException):
@@ -79,6 +82,8 @@ class StepClock:
         self.installed = False
         self.on_interrupt = None
         self.interrupt_exc = None
+        self.deliver = None         # custom delivery of the interruption (a signal handler the code installed)
+        self.dead = False           # the simulated process was killed: no repository line may execute any more
 
     # -- installation -----------------------------------------------------
     def install(self):
@@ -106,6 +111,7 @@ class StepClock:
     # -- per-operation arming ----------------------------------------------
     def arm(self, fine=False, interrupt_at=None, sweep_cap=None, step_cap=None, interrupt_exc=None):
         self.interrupt_exc = interrupt_exc
+        self.dead = False
         if fine != self.fine or fine:
             mon.restart_events()
         self.fine = fine
@@ -124,6 +130,8 @@ class StepClock:
         self.interrupt_site = None
 
     def disarm(self):
+        self.dead = False
+        self.deliver = None
         self.interrupt_at = None
         self.sweep_cap = None
         self.step_cap = None
@@ -135,6 +143,10 @@ class StepClock:
     # -- callbacks -----------------------------------------------------------
     def _tick(self, code, line):
         self.steps += 1
+        if self.dead:
+            # a killed process executes nothing: every handler / finally block the unwinding would enter
+            # is cut short at its first line
+            raise SimInterrupt(self.interrupt_site or "dead")
         ia = self.interrupt_at
         if ia is not None and self.steps >= ia:
             self.interrupt_at = None
@@ -145,6 +157,11 @@ class StepClock:
             if self.interrupt_exc is not None:
                 # a failing allocation: an ordinary Exception subclass raised at an arbitrary step
                 raise self.interrupt_exc("injected at " + self.interrupt_site)
+            dv = self.deliver
+            if dv is not None and dv(sys._getframe(2)):
+                # the code installed its own SIGINT handler (or ignores the signal): Python ran it here,
+                # between two lines, and execution continues
+                return
             raise SimInterrupt(self.interrupt_site)
         sc = self.step_cap
         if sc is not None and self.steps >= sc:
